@@ -74,7 +74,7 @@ def checked_diff_contract(rep, F, rule='ORDER-TABLE'):
     try:
         paths = TB.PathEnum(F, fn, max_paths=16).run()
     except Undecided as e:
-        rep.undecided(rule, fn.key + ':contract', str(e), fn.where())
+        rep.undecided_anchor(rule, fn.key + ':contract', str(e), fn.where())
         return 0
     want = {255: ('Less', ('arg2', 'arg1')), 0: ('Equal', None), 1: ('Greater', ('arg1', 'arg2'))}
     for atoms, out in paths:
@@ -141,7 +141,7 @@ def cmp_table(rep, F, rule='ORDER-TABLE'):
     try:
         paths = TB.PathEnum(F, fn, max_paths=128).run()
     except Undecided as e:
-        rep.undecided(rule, fn.key + ':order-table', str(e), fn.where())
+        rep.undecided_anchor(rule, fn.key + ':order-table', str(e), fn.where())
         return 0
     n = 0
     seen = set()
@@ -305,7 +305,7 @@ def eq_table(rep, F, rule='ORDER-TABLE'):
     try:
         paths = TB.PathEnum(F, fn, max_paths=4000, cut_loops=True).run()
     except Undecided as e:
-        rep.undecided(rule, fn.key + ':eq-table', str(e), fn.where())
+        rep.undecided_anchor(rule, fn.key + ':eq-table', str(e), fn.where())
         return 0
     cells = {}
 
